@@ -4,31 +4,33 @@ PROP = {
     "bin": "c13",
     "prop_file": "Properties/C13.v",
     "model_files": ["DocSet/Spec.v", "DocSet/Impl.v", "DocSet/Program.v", "DocSet/Exclude.v", "DocSet/ReqOpt.v", "DocSet/Sum.v",
-                    "DocSet/Intersect.v", "DocSet/IntersectProofs.v", "DocSet/Union.v", "DocSet/Disjunction.v", "DocSet/Cases.v"],
+                    "DocSet/Intersect.v", "DocSet/IntersectProofs.v", "DocSet/IntersectAdvanceProofs.v", "DocSet/Union.v", "DocSet/UnionBits.v",
+                    "DocSet/UnionProofs.v", "DocSet/UnionWitness.v", "DocSet/Disjunction.v", "DocSet/DisjunctionProofs.v", "DocSet/Cases.v"],
     "level": "proof",
     "engine": "E3-docset",
-    "level_text": "Proof: a DocSet implementation is a record of the trait's methods; the contract Repr(state, remaining sorted list) is stated once (Impl.v) and "
-                  "every implementation meeting it is proved observationally equal to the plain sorted list for every valid call program of any length "
-                  "(advance, seek(t >= doc), fill_buffer, fill_bitset_block, count_including_deleted), with TERMINATED sticky (induction on the program). "
-                  "The trait's default methods are proved to meet the contract from doc/advance alone (loops fuelled by the remaining postings, fuel proved adequate), "
-                  "hence the leaf and every docset that overrides nothing. Executable models of Exclude, Intersection (leap-frog with seek_danger, dense/sparse count), "
-                  "BufferedUnionScorer (4096 window of TinySets, refill, in/out-of-horizon seek, wrapping_sub horizon test, fill_buffer, count), "
-                  "RequiredOptionalScorer and Disjunction(min-should-match) transliterate the Rust and are tied by differential runs; "
-                  "Compositional Repr theorems are proved for Exclude (single/Vec exclusion set through seek_danger, for ANY children meeting the contract, weak or strong), "
-                  "RequiredOptionalScorer and heterogeneous (Box<dyn>) children, so these nest at any depth (example theorem: all programs on Exclude(ReqOpt(leaf,leaf),[leaf,leaf])). "
-                  "For Intersection, go_to_first_doc (Intersection::new / intersect_scorers / seek) is proved for any children meeting the contract: terminates within the fuel, aligns all children on the first common member, skips none; hence new/doc/seek represent sem_inter. "
-                  "seek_danger is specified relationally in the contract (Found iff member, else a bound in (t, next member], dangling states) and programs with seek_danger calls are proved to satisfy the relational spec_check for every implementation meeting the contract; the generated programs contain seek_danger sequences. "
-                  "_partial: the leap-frog Intersection::advance/seek_danger and its dense count, BufferedUnionScorer and Disjunction have no Repr theorem (their models are tied by differential runs and checked against the set semantics); "
-                  "scores are not modelled (score path-independence is decided on the implementation side, bit-exact). "
-                  "F131 (union seek_danger below its window) is fixed in /repo; the model follows the pinned shape of the source (flag UNION_DANGER_GUARDS_CURRENT_DOC) and C13_union_in_union_refuted is the witness for the old shape. Known findings: F132 (fill_buffer leaves stale score combiners), "
-                  "F133 (a union keeps a dangling intersection child as score contributor).",
+    "level_text": "Proof: a DocSet implementation is a record of the trait's methods; the contract Repr(state, remaining sorted list), with dangling states and a relational seek_danger "
+                  "(Found iff member, else a bound in (t, next member]), is stated once (Impl.v). Every implementation meeting it is proved observationally equal to the plain sorted list for every "
+                  "valid call program of any length (advance, seek(t >= doc), fill_buffer, fill_bitset_block, count_including_deleted; induction on the program), TERMINATED is sticky, and programs "
+                  "with seek_danger sequences satisfy the relational spec_check. The trait's default methods meet the contract from doc/advance alone (fuel proved adequate). "
+                  "Compositional theorems, each for ANY children meeting the contract (so they nest at any depth, heterogeneous Box<dyn> children via the sum): Exclude (single/Vec exclusion set), "
+                  "RequiredOptionalScorer, Intersection (go_to_first_doc, leap-frog advance with seek_danger restarts, seek, its own seek_danger; sparse count path), "
+                  "Disjunction(min-should-match k >= 1), BufferedUnionScorer (build/doc/advance/in- and out-of-horizon seek/fill_buffer/fill_bitset_block/count keep the window invariant of DESIGN s9 "
+                  "and represent sem_union); with seek_danger in the shape READ FROM THE CURRENT SOURCE (pinned flags: guard on the current document, re-synchronisation of the missed children in the hit branch) "
+                  "the union meets the strong contract over children that never dangle (leaves, Exclude, Disjunction, every default seek_danger). "
+                  "_partial: the union's contract over children that can dangle (Intersection / union children driven through seek_danger) is not proved -- that is where F133/F134 were; it is covered by the "
+                  "differential runs and the witnesses (C13_union_over_dangling_child_refuted for the shape before the fix of F134, UnionWitness.W_current_source for the current one); "
+                  "Intersection's dense count path, SimpleUnion/BitSetPostingUnion, postings/range/phrase/phrase-prefix scorers are not modelled (spec layer on the implementation only); "
+                  "scores are not modelled: score path-independence is decided on the implementation side (bit-exact for single clauses and power-of-two leaf scores, relative 1e-5 for f32 sums), "
+                  "after every positioning call and along an advance walk to the end after every program. "
+                  "F131-F134 are fixed in /repo (C13_union_in_union_refuted / C13_union_over_dangling_child_refuted are witnesses about the old shapes); no known finding remains for this property.",
     "level_note": "Trusted: Coq kernel + vm_compute; pin.py; the harness (leaf DocSet driven by the trait defaults, BooleanQuery trees over leaf queries, programs generated on line "
                   "against the real scorer). SIMD in-block search of postings, fast-field range and phrase scorers are exercised on the spec layer only (not modelled). "
                   "No axioms (Print Assumptions: closed under the global context).",
     "technique": "Coq proof (contract refinement to sorted-list semantics, induction on call programs, fuel adequacy) + correspondence cases evaluated by vm_compute",
     "rule": "a case = (scorer construction, call program, observations); non-trivial when the underlying list has >= 3 documents and the program >= 3 calls; "
             "scorers: leaves, direct Exclude/RequiredOptional/intersect_scorers, BooleanQuery trees (union, min-should-match, must, must_not; depth 1-3) over leaf queries, "
-            "real term/boolean/all/range/phrase queries on an indexed corpus; targets biased to doc, doc+1, members +-1, +4095/4096/4097, multiples of 4096/1024/128/64 +-1, TERMINATED-1, TERMINATED; "
+            "real term/boolean (incl. dense term unions over > 3 windows)/all/range/phrase/phrase-prefix (2- and 3-term, alone and inside boolean queries) queries on indexed corpora; "
+            "dense scoring unions with a scripted in-bucket seek followed by the same slots of the next windows; seek_danger sequences; every program is followed by an advance walk to the end; targets biased to doc, doc+1, members +-1, +4095/4096/4097, multiples of 4096/1024/128/64 +-1, TERMINATED-1, TERMINATED; "
             "distinct by hash of the Gallina case term",
     "trusted_base": COMMON_TB + ["harness leaf `VecDs` (sorted vector + default trait methods) stands for VecDocSet (cfg(test) only in the crate)",
                                  "the BinaryHeap of Disjunction is modelled as pop-min on a list (tie order among equal docs is not observable on documents)",
